@@ -196,3 +196,6 @@ func openAdapter(backend int) store.Store {
 	nd.Assert("setup.open-badger", err == nil)
 	return st
 }
+
+// replayScale: extra documents added by scaled native replays (none under the engine).
+func replayScale() int { return 0 }
